@@ -24,7 +24,7 @@ ASSUMPTIONS = ['the DB is compared at the end of each iteration, after the '
                "loop's own process_workflow_db_queue()"]
 MIN = {'c26.struct_checks': 3000, 'c26.db_checks': 3000,
        'c26.rows_compared': 10000}
-NCASES = {'quick': 300, 'thorough': 4000}
+NCASES = {'quick': 1000, 'thorough': 12000}
 
 
 def ncases(tier):
